@@ -18,7 +18,7 @@ def cases(draw, max_leaves=8, ninst=3):
     d = draw(st.sampled_from(impl.DRAFTS))
     s = draw(GS.root_schemas(d, max_leaves))
     xs = draw(GI.instances_for(s, ninst))
-    return {"draft": d, "schema": s, "instances": xs, "probes": 30}
+    return {"draft": d, "schema": s, "instances": xs, "probes": 30, "alias": draw(st.integers(0, 5)) == 0}
 
 
 class C01(Prop):
@@ -48,6 +48,10 @@ class C01(Prop):
     def check(self, case):
         res = Result()
         d, s, xs = case["draft"], case["schema"], list(case["instances"])
+        if case.get("alias"):
+            pool = {}
+            s, xs = impl.alias_equal(s, pool), [impl.alias_equal(x, pool) for x in xs]     # schema and instances share parts
+            res.labels.append("aliased")
         if case.get("probes"):
             xs += GI.probes(s, case["probes"])
         cls = impl.CLS[d]
